@@ -9,6 +9,7 @@ open VncModel VncModel.Auth VncModel.Proto
 
 structure DState where
   fixed : Bool := true
+  cryptoFail : Bool := false            -- fault injection: the back-end cannot open a DES cipher
   screens : List Screen := []
   proc : Proc := {}
   ever : List Nat := []                 -- connection ids in increasing order
@@ -26,10 +27,18 @@ def wire (scr : Option Screen) : Msg → List UInt8
   | .reason s => be32 s.length ++ s
   | .serverInit => match scr with | some s => s.serverInit | none => []
 
-def envOf (fixed : Bool) : Env :=
-  { enc := if fixed then Des.rfbEncryptBytes else Des.rfbEncryptBytesUnfixed
-    decFile := Des.decryptPasswdFile Gen.C05.fixedkey
-    parseVer := parseVersion }
+/-- With a failing back-end the fixed rfbEncryptBytes yields random bytes (modelled as a value no
+16-byte response equals), the unfixed one leaves the challenge in place; rfbDecryptPasswdFromFile
+returns NULL in both. -/
+def envOf (fixed cryptoFail : Bool) : Env :=
+  if cryptoFail then
+    { enc := if fixed then (fun _ _ => []) else (fun _ c => c)
+      decFile := fun _ => none
+      parseVer := parseVersion }
+  else
+    { enc := if fixed then Des.rfbEncryptBytes else Des.rfbEncryptBytesUnfixed
+      decFile := Des.decryptPasswdFile Gen.C05.fixedkey
+      parseVer := parseVersion }
 
 def stName : St → String
   | .ver => "ver" | .sec => "sec" | .auth => "auth" | .init => "init" | .initShared => "initsh"
@@ -56,7 +65,7 @@ def obs (s : DState) (cid : Nat) : DState × String :=
     ({ s with reported := (cid, c.sent.length) :: s.reported.filter (fun p => p.1 != cid) }, line)
 
 def ev (s : DState) (e : Ev) : DState :=
-  { s with proc := step s.fixed (envOf s.fixed) s.screens s.proc e }
+  { s with proc := step s.fixed (envOf s.fixed s.cryptoFail) s.screens s.proc e }
 
 /-- the harness calls rfbProcessClientMessage while the message the state expects is complete -/
 def pump (s : DState) (cid : Nat) : Nat → DState
@@ -79,6 +88,10 @@ def dstep (s : DState) (toks : List String) : DState × List String :=
     if m = "fixed" then ({ s with fixed := true }, ["ok"])
     else if m = "unfixed" then ({ s with fixed := false }, ["ok"])
     else (s, ["bad-op"])
+  | ["cryptofail", b] =>
+    match b? b with
+    | some b => ({ s with cryptoFail := b }, ["ok"])
+    | none => (s, ["bad-op"])
   | "screen" :: sid :: kind :: rest =>
     match sid.toNat? with
     | none => (s, ["bad-op"])
@@ -140,7 +153,7 @@ def dstep (s : DState) (toks : List String) : DState × List String :=
       match unhex? cid, unhex? h with
       | some pw, some ch =>
         if pw.contains 0 || ch.length ≠ 16 then (s, ["bad-op"])
-        else (s, [hex ((envOf s.fixed).enc pw ch)])
+        else (s, [hex ((envOf s.fixed false).enc pw ch)])
       | _, _ => (s, ["bad-op"])
     else (s, ["bad-op"])
   | ["proc", cid] =>
